@@ -79,6 +79,7 @@ THEOREMS = ["OllamaVerif.C18." + t for t in (
     "newParams_in_range", "xClampLawsOn", "arith_contracts_of_ranges", "cumsum_nonneg", "xMulLawsOn",
     "scale_contract_of_laws", "guard_of_laws", "contracts_after_shift", "isDesc_head_max", "xScaleLawsOn", "xBeqRefl",
     "shift_desc", "shift_contract_of_laws", "isDesc_of_pairwise", "shift_scale_contracts_of_laws", "xShiftLawsOn",
+    "sample_admissible_lawful",
     "deterministic", "hist_nth", "Sample_indep_r", "stream_of_seed", "grammar_step_spec",
     "grammar_retry_admissible_partial", "grammar_retry_admissible_fixed_partial", "grammar_retry_greedy",
     "masked_not_neginf_accepted", "maskLogits_get", "F18_nan_instead_of_token", "F18_guard_fails",
